@@ -306,7 +306,7 @@ class Eval:
 
     def payload(self, t, variant, field="0"):
         tag = t[0]
-        if tag == "opt" and variant == "Some":
+        if tag == "opt" and variant in ("Some", "Ok"):
             self.ctx.assumed |= set(t[2])
             return t[1]
         if tag == "agg" and t[2] == variant:
@@ -384,6 +384,9 @@ class Eval:
         if k == "bin":
             return ("bin", rv["op"], self.operand(env, rv["a"], point), self.operand(env, rv["b"], point))
         if k == "un":
+            if rv["op"] == "PtrMetadata":
+                # the length of a slice reference (what `slice.len()` and slice patterns read)
+                return ("call", "core::slice::len", None, (self.operand(env, rv["a"], point),), None)
             return ("un", rv["op"], self.operand(env, rv["a"], point))
         if k == "cast":
             a = self.operand(env, rv["op"], point)
@@ -781,6 +784,13 @@ class Eval:
                 # `impl<T> From<T> for T` / `impl<T,U: From<T>> Into<U> for T`
                 if "From<T> for T" in res:
                     return args[0]
+        # ---- slice -> fixed-size array reference: the same elements, present iff the length is N ----
+        if cid in ("std::convert::TryInto::try_into", "std::convert::TryFrom::try_from") and args and len(fn.get("gargs", [])) == 2:
+            src, dst = fn["gargs"] if cid.endswith("try_into") else (fn["gargs"][1], fn["gargs"][0])
+            m = re.match(r"^&(?:mut )?\[.*; (\d+)\]$", dst)
+            if m and re.match(r"^&(?:mut )?\[[^;]*\]$", src):
+                ln = ("call", "core::slice::len", None, (args[0],), None)
+                return ("opt", args[0], frozenset([("pred", ("bin", "Eq", ln, ("const", "usize", int(m.group(1)))))]))
         # ---- Option / Result algebra ----
         v = self.option_algebra(cid, args, site, env)
         if v is not None:
